@@ -82,6 +82,7 @@ type Annot struct { // things attached to a cut or a loop head
 	BackInv    []EnsuresClause // asserted only when the loop head is reached through a back edge (end of an iteration)
 	Derive     []EnsuresClause // proved after havoc from the assumed invariants (small VCs), then assumed
 	GhostPost  []GhostStmt     // ghost updates after havoc/assume
+	Forget     bool            // "+ forget": restart the path condition from the enclosing loop head
 	Assumes    []*SpecExpr     // only allowed with explicit "assumed" justification; listed in evidence
 }
 
@@ -367,6 +368,10 @@ func ParseContracts(file string) ([]*Contract, error) {
 					nm = fmt.Sprintf("d%d", len(ann.Derive)+1)
 				}
 				ann.Derive = append(ann.Derive, EnsuresClause{nm, e})
+			case "forget":
+				// after this cut only the facts known at the head of the enclosing annotated loop (or at function
+				// entry) and the cut's own invariants are kept: the classical cut-point rule (fewer hypotheses: sound)
+				ann.Forget = true
 			case "ghost-post":
 				g, err := parseGhost(rest)
 				if err != nil {
